@@ -26,7 +26,15 @@ func (vScribble) Read(p []byte) (int, error) {
 // vPoisonPools (native side): recycle every size class of the library's byte and bufio pools
 // and overwrite the recycled memory.  Under the engine the call is intercepted: the content of
 // every buffer that was returned to a pool becomes arbitrary.
+// vNoPoison (native only): set during the concurrent -race phase of C19 — there the other
+// goroutines ARE the pool traffic, and the scribbling's own pool operations would only add
+// synchronisation that hides races from the detector.
+var vNoPoison bool
+
 func vPoisonPools() {
+	if vNoPoison {
+		return
+	}
 	for size := 128; size <= 65536; size <<= 1 {
 		var held [][]byte
 		for i := 0; i < 4; i++ {
